@@ -70,9 +70,12 @@ TRUSTED = [
     "that the generator matrix of a StabEngine state denotes the same quantum state slot by slot is C13/C14 "
     "(tensor_group, measure_*_state) plus the NumPy oracle of this check; C15's Lean theorems carry slot order as a "
     "ghost label list and as column-position lemmas on the generators",
-    "harness/shims/qutip, harness/shims/projectq: NumPy stand-ins for the API subset the two engines use, validated by "
-    "the repo's own tests/quick/engine/test_qutip_engine.py (3 tests) and test_project_q_engine.py (34 tests) which "
-    "execute and pass against them (test_measure of the qutip file only with the fix for numpy >= 2.4)",
+    "harness/shims/qutip, harness/shims/projectq: NumPy stand-ins for the API subset the two engines use, validated on every "
+    "run by executing the repo's own tests/quick/engine/test_qutip_engine.py (3 tests) and test_project_q_engine.py (34 tests) "
+    "against them (no-ops without the packages): all 37 must run; 37 pass with the fix-c15 commits, 36 on the tree without "
+    "them (test_measure of the qutip file hits int() of a 1-element array, refused by numpy >= 2.4)",
+    "projectq exports are additionally re-encoded by the harness (bit positions permuted, amplitudes re-indexed: the same "
+    "state) before absorb_parts, because the engine itself only ever exports the identity slot -> bit map",
     "NumPy linear algebra of the reference (complex128 density matrices up to 64 x 64, tolerance 1e-7)",
     "scripted replacements for randint / np.random.choice / random.random; uniformity of the real sources is assumed",
 ]
@@ -816,6 +819,19 @@ def _unspy_ptrace():
     load()["qp"].Qobj.ptrace = _PT["orig"]
 
 
+def _work(jobs):
+    """run a chunk of (engine, sequence, record?) jobs; picklable results"""
+    out = []
+    for ename, seq, want_rec in jobs:
+        rec = [] if want_rec else None
+        try:
+            stats = run_sequence(ename, seq, rec)
+            out.append((ename, seq, stats, None, rec))
+        except Failure as f:
+            out.append((ename, seq, None, (f.key, f.what, f.step), rec))
+    return out
+
+
 def shrink(ename, seq, key):
     """delta-debug: drop calls while the same failure persists"""
     cur = list(seq)
@@ -1061,6 +1077,8 @@ FIXED = [
     [["new", 0, 3]] + asym(0) + [["rm", 0, 1, 1], ["add", 0], ["g2", 0, "CNOT", 2, 0], ["md", 0, 0, 0]],
     # add in a given state
     [["new", 0, 4], ["addst", 0, 1], ["addst", 0, 3], ["addst", 0, 4], ["g2", 0, "CNOT", 1, 0], ["md", 0, 1, 1], ["mi", 0, 1, 0]],
+    # a forced outcome whose probability comes out as -1e-17 in floating point
+    [["new", 0, 6], ["addst", 0, 2], ["addst", 0, 4], ["g1", 0, "H", 1], ["md", 0, 1, 0]],
     # T is refused by the stabilizer backend only
     [["new", 0, 2], ["add", 0], ["g1", 0, "H", 0], ["g1", 0, "T", 0], ["g1", 0, "H", 0], ["mi", 0, 0, 1]],
 ]
@@ -1133,40 +1151,50 @@ def run(ctx):
         jobs = [(e, s) for s in seqs for e in ENGINES]
     recs = []
     seen_keys = set()
-    nrec_budget = ctx.scale(300, 5000) + len(FIXED)
-    per_engine = {e: 0 for e in ENGINES}
-    for ename, seq in jobs:
-        rec = [] if (ctx.lean_ok and per_engine[ename] < nrec_budget) else None
-        per_engine[ename] += 1
-        try:
-            stats = run_sequence(ename, seq, rec)
-        except Failure as f:
-            res.case({"engine": ename, "seq": seq}, nontrivial=True)
-            res.count("violations:" + f.key)
-            if f.key not in seen_keys:
-                seen_keys.add(f.key)
-                small = shrink(ename, seq[:f.step + 1], f.key)
-                try:
-                    run_sequence(ename, small)
-                    what = f.what
-                except Failure as g:
-                    what = g.what
-                res.violation(f.key, what, {"engine": ename, "seq": small})
-            continue
-        finally:
-            if rec:
-                recs.extend(rec)
+    want_rec = bool(ctx.lean_ok)
+    chunks = [[(e, s, want_rec) for e, s in jobs[k:k + 90]] for k in range(0, len(jobs), 90)]
+    nproc = min(8, os.cpu_count() or 1) if (ctx.thorough and len(chunks) > 8) else 1
+    if nproc > 1:
+        # sequences are independent; the engines and the scripted randomness are per process (fork after load())
+        import multiprocessing
+        pool = multiprocessing.get_context("fork").Pool(nproc)
+        results = pool.imap(_work, chunks)
+    else:
+        pool = None
+        results = map(_work, chunks)
+    try:
+        for chunk in results:
+            for ename, seq, stats, failure, rec in chunk:
+                if rec:
+                    recs.extend(rec)
+                if failure:
+                    key, what, step = failure
+                    res.case({"engine": ename, "seq": seq}, nontrivial=True)
+                    res.count("violations:" + key)
+                    if key not in seen_keys:
+                        seen_keys.add(key)
+                        small = shrink(ename, seq[:step + 1], key)
+                        try:
+                            run_sequence(ename, small)
+                        except Failure as g:
+                            what = g.what
+                        res.violation(key, what, {"engine": ename, "seq": small})
+                    continue
+                res.case({"engine": ename, "seq": seq}, nontrivial=stats["maxq"] >= 2)
+                res.count("sequences:" + ename)
+                for k in ("ok", "refused", "random", "forced", "entangled_absorb"):
+                    res.count("calls:%s:%s" % (ename, k), stats[k])
+                res.count("maxqubits:%d" % stats["maxq"])
+                for op in seq:
+                    res.count("op:" + op[0])
             if len(recs) > 15000:
                 # keep the heap small: the full gc.collect() after every merge walks everything that is alive
                 tie(res, recs)
                 recs = []
-        res.case({"engine": ename, "seq": seq}, nontrivial=stats["maxq"] >= 2)
-        res.count("sequences:" + ename)
-        for k in ("ok", "refused", "random", "forced", "entangled_absorb"):
-            res.count("calls:%s:%s" % (ename, k), stats[k])
-        res.count("maxqubits:%d" % stats["maxq"])
-        for op in seq:
-            res.count("op:" + op[0])
+    finally:
+        if pool is not None:
+            pool.terminate()
+            pool.join()
     if ctx.lean_ok and recs:
         tie(res, recs)
     if not replay:
